@@ -163,6 +163,7 @@ def run_instance(ctx, sh):
     except core.Inconclusive:
         raise
     except Exception as e:
+        core.reraise_if_proxy_limitation(e)
         verdict = "crashed:" + repr(e)
     ctx.cover("verdict:" + verdict.split(":")[0])
     for r in reasons:
@@ -233,4 +234,5 @@ def run_instance(ctx, sh):
     except AssertionError as e:
         ctx.fail("C18:accepted-configuration-initialises", X._tb(e))
     except Exception as e:
+        core.reraise_if_proxy_limitation(e)
         ctx.fail("C18:accepted-configuration-initialises", X._tb(e))
